@@ -129,6 +129,60 @@ func (e *Exec) exactBV64(t *Term) *Term {
 	return b
 }
 
+// ovf models the range check the SDK makes on the result of Int/Dec arithmetic (|result| < 2^255, for Dec
+// numerators < 2^315): outside it the operation panics with "Int overflow". It is switched on per harness
+// (vf.CheckOverflow); elsewhere amounts are mathematical integers and the check is outside the claim.
+func (e *Exec) ovf(t *Term, ty string) *Term {
+	if e.env == nil || !e.env.ovf || ty == "Uint" {
+		return t
+	}
+	bits := uint(255)
+	if ty == "Dec" {
+		bits = 315
+	}
+	if t.IsConst() {
+		if t.Big.BitLen() > int(bits) {
+			panic(goPanic{"Int overflow"})
+		}
+		return t
+	}
+	lim := new(big.Int).Lsh(big.NewInt(1), bits)
+	in := e.tt.IntCmp("<", t, e.tt.Int(lim))
+	if !e.tt.NonNeg(t) {
+		in = e.tt.And(in, e.tt.IntCmp(">", t, e.tt.Int(new(big.Int).Neg(lim))))
+	}
+	if !e.branch(in) {
+		e.panicAt = strings.Join(e.stack[max(0, len(e.stack)-4):], " <- ")
+		panic(goPanic{"Int overflow"})
+	}
+	return t
+}
+
+// exactSum: a 64-bit sum or difference of two values that are exact images of integer terms is the exact
+// image of the wrapped integer result, so later conversions to integers stay in integer arithmetic.
+func (e *Exec) exactSum(r, a, b *Term, op string) *Term {
+	if e.env == nil || e.env.exact == nil || r.IsConst() || r.Sort != SBV64 {
+		return r
+	}
+	img := func(t *Term) *Term {
+		if t.IsConst() {
+			return e.tt.Int64(int64(t.U))
+		}
+		return e.env.exact[t]
+	}
+	A, B := img(a), img(b)
+	if A == nil || B == nil {
+		return r
+	}
+	s := e.tt.IntBin(op, A, B)
+	two63 := e.tt.Int(new(big.Int).Lsh(big.NewInt(1), 63))
+	two64 := e.tt.Int(new(big.Int).Lsh(big.NewInt(1), 64))
+	w := e.tt.Ite(e.tt.IntCmp(">=", s, two63), e.tt.IntBin("-", s, two64),
+		e.tt.Ite(e.tt.IntCmp("<", s, e.tt.Int(new(big.Int).Neg(new(big.Int).Lsh(big.NewInt(1), 63)))), e.tt.IntBin("+", s, two64), s))
+	e.env.exact[r] = w
+	return r
+}
+
 // int2bv64 converts an Int term to a 64-bit vector (wrapping)
 func (e *Exec) int2bv64(t *Term) *Term {
 	if t.IsConst() {
@@ -143,8 +197,8 @@ func init() {
 	for _, ty := range []string{"Int", "Dec", "Uint"} {
 		ty := ty
 		m := func(n string) string { return "(" + sdkT + ty + ")." + n }
-		reg(m("Add"), func(e *Exec, a []Value) Value { return bv(e.tt.IntBin("+", e.big(a[0]), e.big(a[1]))) })
-		reg(m("Sub"), func(e *Exec, a []Value) Value { return bv(e.tt.IntBin("-", e.big(a[0]), e.big(a[1]))) })
+		reg(m("Add"), func(e *Exec, a []Value) Value { return bv(e.ovf(e.tt.IntBin("+", e.big(a[0]), e.big(a[1])), ty)) })
+		reg(m("Sub"), func(e *Exec, a []Value) Value { return bv(e.ovf(e.tt.IntBin("-", e.big(a[0]), e.big(a[1])), ty)) })
 		reg(m("Neg"), func(e *Exec, a []Value) Value { return bv(e.neg(e.big(a[0]))) })
 		reg(m("IsZero"), func(e *Exec, a []Value) Value { return e.tt.Eq(e.big(a[0]), e.tt.Int64(0)) })
 		reg(m("IsNegative"), func(e *Exec, a []Value) Value { return e.tt.IntCmp("<", e.big(a[0]), e.tt.Int64(0)) })
@@ -168,15 +222,15 @@ func init() {
 			return StrVal{B: e.constStr("<num>").B, Att: b}
 		})
 	}
-	reg("("+sdkT+"Int).Mul", func(e *Exec, a []Value) Value { return bv(e.tt.IntBin("*", e.big(a[0]), e.big(a[1]))) })
+	reg("("+sdkT+"Int).Mul", func(e *Exec, a []Value) Value { return bv(e.ovf(e.tt.IntBin("*", e.big(a[0]), e.big(a[1])), "Int")) })
 	reg("("+sdkT+"Int).MulRaw", func(e *Exec, a []Value) Value {
-		return bv(e.tt.IntBin("*", e.big(a[0]), e.sbv2int(a[1].(*Term))))
+		return bv(e.ovf(e.tt.IntBin("*", e.big(a[0]), e.sbv2int(a[1].(*Term))), "Int"))
 	})
 	reg("("+sdkT+"Int).AddRaw", func(e *Exec, a []Value) Value {
-		return bv(e.tt.IntBin("+", e.big(a[0]), e.sbv2int(a[1].(*Term))))
+		return bv(e.ovf(e.tt.IntBin("+", e.big(a[0]), e.sbv2int(a[1].(*Term))), "Int"))
 	})
 	reg("("+sdkT+"Int).SubRaw", func(e *Exec, a []Value) Value {
-		return bv(e.tt.IntBin("-", e.big(a[0]), e.sbv2int(a[1].(*Term))))
+		return bv(e.ovf(e.tt.IntBin("-", e.big(a[0]), e.sbv2int(a[1].(*Term))), "Int"))
 	})
 	reg("("+sdkT+"Int).ToDec", func(e *Exec, a []Value) Value { return bv(e.tt.IntBin("*", e.big(a[0]), e.tt.Int(prec))) })
 	reg("("+sdkT+"Int).Int64", func(e *Exec, a []Value) Value {
@@ -195,10 +249,12 @@ func init() {
 		hi := e.tt.Int(new(big.Int).Lsh(big.NewInt(1), 63))
 		return e.tt.And(e.tt.IntCmp(">=", t, lo), e.tt.IntCmp("<", t, hi))
 	})
-	reg("("+sdkT+"Dec).Mul", func(e *Exec, a []Value) Value { return bv(e.chop(e.tt.IntBin("*", e.big(a[0]), e.big(a[1])))) })
-	reg("("+sdkT+"Dec).MulInt", func(e *Exec, a []Value) Value { return bv(e.tt.IntBin("*", e.big(a[0]), e.big(a[1]))) })
+	reg("("+sdkT+"Dec).Mul", func(e *Exec, a []Value) Value {
+		return bv(e.ovf(e.chop(e.tt.IntBin("*", e.big(a[0]), e.big(a[1]))), "Dec"))
+	})
+	reg("("+sdkT+"Dec).MulInt", func(e *Exec, a []Value) Value { return bv(e.ovf(e.tt.IntBin("*", e.big(a[0]), e.big(a[1])), "Dec")) })
 	reg("("+sdkT+"Dec).MulInt64", func(e *Exec, a []Value) Value {
-		return bv(e.tt.IntBin("*", e.big(a[0]), e.sbv2int(a[1].(*Term))))
+		return bv(e.ovf(e.tt.IntBin("*", e.big(a[0]), e.sbv2int(a[1].(*Term))), "Dec"))
 	})
 	reg("("+sdkT+"Dec).TruncateInt", func(e *Exec, a []Value) Value { return bv(e.truncDiv(e.big(a[0]), prec)) })
 	reg("("+sdkT+"Dec).TruncateInt64", func(e *Exec, a []Value) Value {
@@ -274,6 +330,14 @@ func init() {
 	reg(sdkT+"ZeroInt", func(e *Exec, a []Value) Value { return bv(e.tt.Int64(0)) })
 	reg(sdkT+"OneInt", func(e *Exec, a []Value) Value { return bv(e.tt.Int64(1)) })
 	reg(sdkT+"NewInt", func(e *Exec, a []Value) Value { return bv(e.sbv2int(a[0].(*Term))) })
+	reg(sdkT+"NewIntWithDecimal", func(e *Exec, a []Value) Value {
+		n, d := a[0].(*Term), a[1].(*Term)
+		if !d.IsConst() {
+			panic(abort{"NewIntWithDecimal with a symbolic exponent"})
+		}
+		p := new(big.Int).Exp(big.NewInt(10), big.NewInt(int64(d.U)), nil)
+		return bv(e.ovf(e.tt.IntBin("*", e.sbv2int(n), e.tt.Int(p)), "Int"))
+	})
 	reg(sdkT+"NewIntFromUint64", func(e *Exec, a []Value) Value { return bv(e.ubv2int(a[0].(*Term))) })
 	reg(sdkT+"NewUint", func(e *Exec, a []Value) Value { return bv(e.ubv2int(a[0].(*Term))) })
 	reg(sdkT+"NewIntFromString", func(e *Exec, a []Value) Value {
